@@ -35,10 +35,13 @@ RANGES = {
 DEFAULTS = {n: 0 for n in RANGES}
 DEFAULTS['velocity'] = 64
 
-# length in bytes of the encoding, None for sysex
-LENGTH = {t: (None if t == 'sysex' else 1 + len([n for n in names if n != 'channel']) +
-              (1 if t in ('pitchwheel', 'songpos') else 0))
-          for t, (_, names) in TYPES.items()}
+# length in bytes of the encoding (MIDI 1.0 specification), None for sysex
+LENGTH = {
+    'note_off': 3, 'note_on': 3, 'polytouch': 3, 'control_change': 3, 'program_change': 2,
+    'aftertouch': 2, 'pitchwheel': 3, 'sysex': None, 'quarter_frame': 2, 'songpos': 3,
+    'song_select': 2, 'tune_request': 1, 'clock': 1, 'start': 1, 'continue': 1, 'stop': 1,
+    'active_sensing': 1, 'reset': 1,
+}
 
 
 def canon_vals(type_, d):
